@@ -216,7 +216,7 @@ FieldsDef(kind) ==
      [] kind = "Schema2" -> SchemaCommon("Schema2") \o <<Str("discriminator")>>
      [] kind = "SecurityScheme2" ->
           <<StrR("type"), Str("description"), Str("name"), Str("in"), Str("flow"), Str("authorizationUrl"),
-            Str("tokenUrl"), SMapR("scopes", TRUE)>>
+            Str("tokenUrl"), SMapR("scopes", FALSE)>>
 
 (* v2 Parameter.$ref / Response.$ref / PathItem.$ref / type: the record must also be usable where   *)
 (* `type' is required (Header2) -- parsing does not need it, so it stays optional.                    *)
@@ -251,6 +251,10 @@ RefStr(kind) ==
      [] kind = "Schema2" -> "#/definitions/T"             [] kind = "Parameter2" -> "#/parameters/T"
      [] kind = "Response2" -> "#/responses/T"             [] kind = "PathItem2" -> "#/paths/~1t"
 RefObj(kind) == O1("$ref", Sv(RefStr(kind)))
+(* external references: a whole external file holding a bare object of the kind, and a fragment of an  *)
+(* external document (the harness serves both from an in-memory table carried by the case, see ExtOf)   *)
+XRefStr(kind)  == "ext/" \o kind \o ".json"
+XFragStr(kind) == "ext/doc.json" \o RefStr(kind)
 Coll(kind) ==
    CASE kind = "Schema" -> "schemas" [] kind = "Response" -> "responses" [] kind = "Parameter" -> "parameters"
      [] kind = "Example" -> "examples" [] kind = "RequestBody" -> "requestBodies" [] kind = "Header" -> "headers"
@@ -294,9 +298,10 @@ Variants(fd) ==
          \cup (IF fd.c = "num" THEN {"big", "neg"} ELSE {})
          \cup (IF fd.c = "umax" THEN {"big"} ELSE {})
          \cup (IF fd.c = "sob" THEN {"f"} ELSE {})
-         \cup (IF CanRef(fd) THEN {"ref", "refsib"} ELSE {})
+         \cup (IF CanRef(fd) THEN {"ref", "refsib", "xref", "xfrag", "xrefsib"} ELSE {})
+         \cup (IF fd.c = "pref" THEN {"xref", "xfrag"} ELSE {})
 (* variants that leave the document in normal form *)
-NormalVariant(fd, var) == ~(var = "refsib" \/ (var = "z" /\ fd.zr = "red"))
+NormalVariant(fd, var) == ~(var \in {"refsib", "xrefsib"} \/ (var = "z" /\ fd.zr = "red"))
 
 RECURSIVE Val(_, _, _), Min(_), Small(_)
 (* Min: required fields only (nested required objects minimal too) *)
@@ -308,16 +313,20 @@ Min(kind) ==
 Small(kind) == IF ExtOK(kind) THEN SetKey(Min(kind), "x-s", Sv(kind)) ELSE Min(kind)
 
 SecReqsV == Av(<<Ov(<<"k">>, <<Av(<<Sv("s1"), Sv("s2")>>)>>), Ov(<<"k2">>, <<EmptyA>>), EmptyO>>)
-RefSib(kind) == Ov(<<"$ref", "description", "x-sib">>, <<Sv(RefStr(kind)), Sv("sibling"), Nm("1")>>)
+SibOf(ref) == Ov(<<"$ref", "description", "x-sib">>, <<Sv(ref), Sv("sibling"), Nm("1")>>)
+RefSib(kind) == SibOf(RefStr(kind))
 
 Val(kind, fd, var) ==
    LET nested(k) == IF var = "min" THEN Min(k)
                     ELSE IF var = "ref" THEN RefObj(k)
-                    ELSE IF var = "refsib" THEN RefSib(k) ELSE Small(k)
+                    ELSE IF var = "refsib" THEN RefSib(k)
+                    ELSE IF var = "xref" THEN O1("$ref", Sv(XRefStr(k)))
+                    ELSE IF var = "xfrag" THEN O1("$ref", Sv(XFragStr(k)))
+                    ELSE IF var = "xrefsib" THEN SibOf(XRefStr(k)) ELSE Small(k)
    IN
    IF var = "z" THEN ZeroOf(fd.c)
    ELSE CASE fd.c \in {"str", "strp"} -> Sv(StrOf(fd.n))
-          [] fd.c = "pref" -> Sv(RefStr(kind))
+          [] fd.c = "pref" -> Sv(IF var = "xref" THEN XRefStr(kind) ELSE IF var = "xfrag" THEN XFragStr(kind) ELSE RefStr(kind))
           [] fd.c = "type" -> Sv("string")
           [] fd.c \in {"bool", "boolp"} -> Bv(TRUE)
           [] fd.c = "num"  -> IF var = "big" THEN Nm(BigI64) ELSE IF var = "neg" THEN Nm("-1.5") ELSE Nm("2.5")
@@ -408,6 +417,21 @@ AddTargets(doc, used, i) ==
    IF i > Len(CompKinds) THEN (IF RefStr("PathItem") \in used THEN AddTarget(doc, "PathItem") ELSE doc)
    ELSE AddTargets(IF RefStr(CompKinds[i]) \in used THEN AddTarget(doc, CompKinds[i]) ELSE doc, used, i + 1)
 WithTargets(ver, doc) == IF ver = 3 THEN AddTargets(doc, Refs(doc), 1) ELSE doc
+
+(* The external resources an OpenAPI 3 document refers to, as a sequence of [name, doc]: ext/<Kind>.json *)
+(* is a bare Small object of the kind (its x-s extension makes an inlined copy recognisable), ext/doc.json *)
+(* a document with one Small target T per component collection and the path /t.                          *)
+XKinds == CompKinds \o <<"PathItem">>
+ExtDoc ==
+   LET comps == Ov([i \in DOMAIN CompKinds |-> Coll(CompKinds[i])], [i \in DOMAIN CompKinds |-> O1("T", Small(CompKinds[i]))])
+   IN SetKey(SetKey(Min("T3"), "paths", O1("/t", Small("PathItem"))), "components", comps)
+ExtOf(ver, doc) ==
+   IF ver # 3 THEN <<>>
+   ELSE LET used == Refs(doc)
+            whole == [i \in DOMAIN XKinds |-> [name |-> XRefStr(XKinds[i]), doc |-> Small(XKinds[i])]]
+            files == Pick(whole, [i \in DOMAIN XKinds |-> XRefStr(XKinds[i]) \in used], 1)
+        IN IF \E i \in DOMAIN XKinds : XFragStr(XKinds[i]) \in used
+           THEN Append(files, [name |-> "ext/doc.json", doc |-> ExtDoc]) ELSE files
 
 (***************************************************************************)
 (* Kind-directed walks over a document.  mode "norm" = L1 normal form:     *)
